@@ -38,7 +38,18 @@ func isLimbType(t types.Type) bool {
 	if slMode == "field" && t.String() == modPath+"/internal/field.Element" {
 		return true
 	}
+	if slMode == "scalar" && t.String() == modPath+"/internal/scalar.scalar" {
+		return true // struct{ s *MontgomeryDomainFieldElement }: a pointer to limbs
+	}
 	return false
+}
+
+// pointerLike: a limb type whose values are references (a copy of the value is another name for the same limbs)
+func pointerLike(t types.Type) bool {
+	if _, ok := t.Underlying().(*types.Pointer); ok {
+		return true
+	}
+	return t.String() == modPath+"/internal/scalar.scalar"
 }
 
 // limbExpr: (Lean expression, alias class, the variable it denotes or nil)
@@ -53,7 +64,7 @@ func (f *slFn) limbExpr(e ast.Expr) (string, int, *slVar) {
 			return f.limbExpr(x.X)
 		}
 	case *ast.SelectorExpr:
-		if x.Sel.Name == "E" || x.Sel.Name == "S" {
+		if x.Sel.Name == "E" || x.Sel.Name == "S" || x.Sel.Name == "s" {
 			if isLimbType(f.g.info.TypeOf(x.X)) {
 				return f.limbExpr(x.X)
 			}
@@ -66,12 +77,22 @@ func (f *slFn) limbExpr(e ast.Expr) (string, int, *slVar) {
 			return v.name, v.class, v
 		}
 	case *ast.CompositeLit:
+		if f.g.info.TypeOf(x).String() == modPath+".Scalar" && len(x.Elts) == 1 {
+			// Scalar{S: ...}
+			if kv, ok := x.Elts[0].(*ast.KeyValueExpr); ok {
+				if key, ok := kv.Key.(*ast.Ident); ok && key.Name == "S" {
+					return f.limbExpr(kv.Value)
+				}
+			}
+		}
 		if isLimbType(f.g.info.TypeOf(x)) && !isLimbArray(f.g.info.TypeOf(x)) && len(x.Elts) == 1 {
 			// the one-field struct: Element{E: ...}
 			if kv, ok := x.Elts[0].(*ast.KeyValueExpr); ok {
-				if k, ok := kv.Key.(*ast.Ident); ok && (k.Name == "E" || k.Name == "S") {
+				if k, ok := kv.Key.(*ast.Ident); ok && (k.Name == "E" || k.Name == "S" || k.Name == "s") {
 					return f.limbExpr(kv.Value)
 				}
+			} else if f.g.info.TypeOf(x).String() == modPath+"/internal/scalar.scalar" {
+				return f.limbExpr(x.Elts[0]) // scalar{p}
 			}
 		}
 		if isLimbType(f.g.info.TypeOf(x)) && len(x.Elts) == 4 {
@@ -96,9 +117,15 @@ func (f *slFn) limbExpr(e ast.Expr) (string, int, *slVar) {
 				return "(⟨0, 0, 0, 0⟩ : L4)", f.newClass(), nil
 			}
 		}
+		f.lastRetVar = nil
 		r, c, k := f.call(x)
-		if k != kLimbs {
+		if k != kLimbs && k != kScalar {
 			f.fail("call %s does not return limbs", nodeText(f.g.imp.fset, x.Fun))
+		}
+		rv := f.lastRetVar
+		f.lastRetVar = nil
+		if rv != nil && rv.name == r {
+			return r, c, rv
 		}
 		return r, c, nil
 	}
